@@ -3,7 +3,7 @@
 From Coq Require Import List Arith NArith Lia Bool.
 From BioSeq Require Import Bits Codec Spec SeqModel SymMap.
 Import ListNotations.
-Open Scope N_scope.
+Local Open Scope N_scope.
 
 Section Masked.
 Variable C : codec.
